@@ -189,8 +189,18 @@ impl ConsumerGroup {
         // Ensure consumer exists
         self.create_consumer(consumer.to_string());
         
-        // Add each entry to pending list
+        // Add each entry to pending list; an entry that is already pending (the group was moved
+        // back with SETID) changes owner instead of being listed twice
+        let mut consumers = self.consumers.write().unwrap();
+        let mut total = self.total_pending.lock().unwrap();
         for entry in &entries {
+            if let Some(old) = pending.remove_entry(&entry.id) {
+                if let Some(old_owner) = consumers.get_mut(&old.consumer) {
+                    old_owner.pending_count = old_owner.pending_count.saturating_sub(1);
+                }
+                *total = total.saturating_sub(1);
+            }
+            
             let pending_entry = PendingEntry {
                 id: entry.id,
                 consumer: consumer.to_string(),
@@ -200,19 +210,18 @@ impl ConsumerGroup {
             };
             
             pending.add_entry(pending_entry);
+            *total += 1;
+            if let Some(consumer_obj) = consumers.get_mut(consumer) {
+                consumer_obj.pending_count += 1;
+            }
         }
         
-        // Update consumer's pending count
-        let mut consumers = self.consumers.write().unwrap();
         if let Some(consumer_obj) = consumers.get_mut(consumer) {
-            consumer_obj.pending_count += entries.len();
             consumer_obj.last_seen = now;
             consumer_obj.idle_time = 0;
         }
-        
-        // Update total pending
-        let mut total = self.total_pending.lock().unwrap();
-        *total += entries.len();
+        drop(total);
+        drop(consumers);
         
         // Update last delivered ID
         if let Some(last_entry) = entries.last() {
